@@ -283,8 +283,8 @@ class Ctx:
                 f.write(header + '\n')
                 f.write('Definition the_cases := [\n  %s\n].\n' % body)
                 f.write('Definition bad_indices := '
-                        'map fst (filter (fun p => negb (%s (snd p))) (combine (seq 0 (length the_cases)) the_cases)).\n' % checker)
-                f.write('Eval vm_compute in (length the_cases, bad_indices).\n')
+                        'map fst (filter (fun p => negb (%s (snd p))) (combine (seq 0 (List.length the_cases)) the_cases)).\n' % checker)
+                f.write('Eval vm_compute in (List.length the_cases, bad_indices).\n')
             files.append((k, fn))
         bad = []
         procs = []
